@@ -202,7 +202,7 @@ def drains(events, reg, skip_pending=False):
             continue       # a while loop drains the registry only if it runs until the registry is empty
         pre_ok = skip_pending is True or (skip_pending == "after-cancel" and cancels(events[:events.index(lp)], reg)[0])
         for bp in lp.a["body"]:
-            if until_empty and bp.exit_kind() == "break" and any(
+            if until_empty and bp.exit_kind() in ("break", "return") and any(
                     x.kind == "LOOKUP" and x.a.get("reg") == reg and str(x.a.get("how", "")).endswith("-empty") for x in bp.walk()) \
                     and not any(x.kind in ("UNREG", "FIRE", "WRITE") for x in bp.walk()):
                 continue       # the exit taken when the registry is found empty
